@@ -6,7 +6,7 @@ name=$1; shift
 S=/tmp/seed/$name
 W=$S/repo
 cd $W || exit 2
-demo=$(ls $S/out/*.rs 2>/dev/null | head -1)
+demo=$S/out/seed_demo.rs; [ -f "$demo" ] || demo=$(ls $S/out/*.rs 2>/dev/null | head -1)
 where=tests
 grep -q "fn main" "$demo" 2>/dev/null && ! grep -q "#\[test\]" "$demo" && where=examples
 rm -f tests/seed_demo.rs examples/seed_demo.rs
